@@ -97,6 +97,7 @@ def gen_plan(seed, tier="quick"):
     plan = {
         "property": PROP, "seed": seed, "fixture": fixture, "nap": nap, "ns": ns, "nbatch": nbatch, "nproc": nproc,
         "nbatch_default": nbatch_default,
+        "out_dtype": "float32" if r.random() < 0.1 else "int16",
         "data_seed": r.randrange(1 << 30), "amp": 60 if fixture == "NP1" else 400, "maxint": maxint, "saturate": sat,
         "k_filter": k_filter, "reject": reject, "wrot": wrot, "wrot_seed": r.randrange(1 << 30),
         "ns2add": r.choice([0, 0, 0, 7, 100, (-ns) % 512]), "drop_sync": r.random() < 0.3,
@@ -125,6 +126,10 @@ def _reject(plan):
     longer than that (every recording of the history, incl. the first run of an append)."""
     shortest = min(plan["ns"], plan["ns_first"]) if plan["append"] else plan["ns"]
     return bool(plan["reject"]) and shortest >= 12000
+
+
+def _isz(plan):
+    return np.dtype(plan.get("out_dtype", "int16")).itemsize
 
 
 def _k_filter(plan, W):
@@ -163,6 +168,8 @@ def _destripe_call(plan, binf, out, nproc, append, W):
               ns2add=plan["ns2add"], append=append)
     if plan["drop_sync"]:
         kw["nc_out"] = W["ncv"]
+    if plan.get("out_dtype", "int16") != "int16":
+        kw["dtype"] = np.dtype(plan["out_dtype"]).type
     if plan.get("qc_path"):
         qc = Path(out).parent / "qc"
         qc.mkdir(exist_ok=True)
@@ -335,7 +342,7 @@ def _run(plan, base):
                     raise Violation("C06.f", f"{sigbase}:first-run-raises:{type(r1['err'][0]).__name__}", f"first run of the append history raised: {r1['err'][1][-800:]}")
                 offset = out.stat().st_size
                 first_bytes = out.read_bytes()
-                if offset != (plan["ns_first"] + plan["ns2add"]) * nc_out * 2:
+                if offset != (plan["ns_first"] + plan["ns2add"]) * nc_out * _isz(plan):
                     raise Violation("C06.a", f"{sigbase}:size-first", f"first run wrote {offset} bytes for ns={plan['ns_first']}")
                 if not plan["append"]:
                     offset = 0          # plain re-run into the same place: nothing of the earlier run may survive
@@ -373,8 +380,9 @@ def _run(plan, base):
         b = outs["sim"].read_bytes()
         if a != b:
             n = min(len(a), len(b))
-            aa = np.frombuffer(a[:n - n % 2], dtype=np.int16)
-            bb = np.frombuffer(b[:n - n % 2], dtype=np.int16)
+            isz = _isz(plan)
+            aa = np.frombuffer(a[:n - n % isz], dtype=np.dtype(plan.get("out_dtype", "int16")))
+            bb = np.frombuffer(b[:n - n % isz], dtype=np.dtype(plan.get("out_dtype", "int16")))
             bad = np.flatnonzero(aa != bb)
             raise Violation("C06.d", f"{sigbase}:differs-from-1-worker",
                             f"output with {plan['nproc']} workers differs from the 1-worker run: {len(bad)} int16 values, first at sample {bad[0] // nc_out if len(bad) else '?'} (sizes {len(a)} vs {len(b)}) ns={ns} nbatch={plan['nbatch']}")
@@ -396,7 +404,7 @@ def _run(plan, base):
 
 def _check_run(plan, tag, nproc, O, data, offset, first_bytes, nc_out, res, od, nbatches, probe, stats, sigbase):
     ns, nap = plan["ns"], plan["nap"]
-    want = offset + (ns + plan["ns2add"]) * nc_out * 2
+    want = offset + (ns + plan["ns2add"]) * nc_out * _isz(plan)
     # a: size
     if len(data) != want:
         raise Violation("C06.a", f"{sigbase}:size:{tag}", f"output has {len(data)} bytes, expected {want} (ns={ns} ns2add={plan['ns2add']} nc_out={nc_out} offset={offset}) with {nproc} workers")
@@ -422,7 +430,7 @@ def _check_run(plan, tag, nproc, O, data, offset, first_bytes, nc_out, res, od, 
         written[p0:p1] = True
     if not written[offset:].all():
         miss = np.flatnonzero(~written[offset:])
-        raise Violation("C06.b", f"{sigbase}:gap", f"{len(miss)} bytes never written, first at byte {offset + miss[0]} (sample {miss[0] // (nc_out * 2)}) with {nproc} workers")
+        raise Violation("C06.b", f"{sigbase}:gap", f"{len(miss)} bytes never written, first at byte {offset + miss[0]} (sample {miss[0] // (nc_out * _isz(plan))}) with {nproc} workers")
     if final[offset:].tobytes() != data[offset:]:
         raise Violation("C06.b", f"{sigbase}:not-what-was-written", "the file content differs from the last value written to each byte (file re-created or truncated after a worker wrote)")
     first_write = next((i for i, lab in enumerate(res["events"]) if lab == f"tofile:{rel}"), None)
@@ -443,7 +451,7 @@ def _check_run(plan, tag, nproc, O, data, offset, first_bytes, nc_out, res, od, 
         if len(tasks_done) < nproc:
             probe("fewer_tasks_than_workers")
     # c: sync column bit-exact
-    arr = np.frombuffer(data[offset:], dtype=np.int16).reshape(-1, nc_out)
+    arr = np.frombuffer(data[offset:], dtype=np.dtype(plan.get("out_dtype", "int16"))).reshape(-1, nc_out)
     if not plan["drop_sync"]:
         src = O[:, -1]
         got = arr[:ns, -1]
@@ -492,7 +500,8 @@ def _check_reference(plan, O, out, offset, nc_out, fs, rec, sigbase, W):
         taper = np.r_[0, scipy.signal.windows.cosine((T - 1) * 2), 0]
         s2v = sr.sample2volts
         wrot = _wrot(plan, nap)
-        got = np.frombuffer(out.read_bytes()[offset:], dtype=np.int16).reshape(-1, nc_out)[:ns]
+        odt = np.dtype(plan.get("out_dtype", "int16"))
+        got = np.frombuffer(out.read_bytes()[offset:], dtype=odt).reshape(-1, nc_out)[:ns]
         stride = N - 2 * T
         first = 0
         worst = 0
@@ -510,13 +519,16 @@ def _check_reference(plan, O, out, offset, nc_out, fs, rec, sigbase, W):
             y = x[i0:i1] / s2v[:nap]
             if wrot is not None:
                 y = np.dot(y, wrot) if not np.isscalar(wrot) else y * wrot
-            ref = y.astype(np.int16)
-            g = got[first + i0: first + i1, :nap].astype(np.int64)
-            d = np.abs(g - ref.astype(np.int64))
-            # truncation toward zero can flip by one on a float32/float64 difference
-            d2 = np.abs(g - np.rint(y).astype(np.int64))
-            dd = np.minimum(d, d2)
-            m = int(dd.max()) if dd.size else 0
+            if odt.kind == "f":
+                dd = np.abs(got[first + i0: first + i1, :nap].astype(np.float64) - y)     # no truncation: within one count
+            else:
+                ref = y.astype(np.int16)
+                g = got[first + i0: first + i1, :nap].astype(np.int64)
+                d = np.abs(g - ref.astype(np.int64))
+                # truncation toward zero can flip by one on a float32/float64 difference
+                d2 = np.abs(g - np.rint(y).astype(np.int64))
+                dd = np.minimum(d, d2)
+            m = float(dd.max()) if dd.size else 0
             worst = max(worst, m)
             if m > 1:
                 bad = np.argwhere(dd > 1)
@@ -529,7 +541,7 @@ def _check_reference(plan, O, out, offset, nc_out, fs, rec, sigbase, W):
 
 
 def shrink_candidates(plan):
-    for key, val in (("append", False), ("mixed_gains", False), ("rerun", False), ("form", "bin"), ("qc_path", False), ("saturate", []), ("wrot", "none"), ("reject", False), ("ns2add", 0),
+    for key, val in (("append", False), ("out_dtype", "int16"), ("mixed_gains", False), ("rerun", False), ("form", "bin"), ("qc_path", False), ("saturate", []), ("wrot", "none"), ("reject", False), ("ns2add", 0),
                      ("drop_sync", False), ("default_k", False), ("order", None), ("victim", None), ("p_switch", 0.0),
                      ("k_filter", False)):
         if plan.get(key) != val:
